@@ -113,11 +113,7 @@ impl Pattern {
     fn has_greedy_all(hir: &Hir) -> bool {
         match hir.kind() {
             HirKind::Repetition(repetition) => {
-                let mut sub = &*repetition.sub;
-                while let HirKind::Capture(capture) = sub.kind() {
-                    sub = &capture.sub;
-                }
-                let is_dot = DOT_HIRS.contains(sub);
+                let is_dot = Self::is_dots(&repetition.sub);
                 let is_unbounded = repetition.max.is_none();
                 let is_greedy = repetition.greedy;
 
@@ -130,6 +126,19 @@ impl Pattern {
             HirKind::Capture(capture) => Self::has_greedy_all(&capture.sub),
             HirKind::Concat(hirs) => hirs.iter().any(Self::has_greedy_all),
             HirKind::Alternation(hirs) => hirs.iter().any(Self::has_greedy_all),
+        }
+    }
+
+    /// True if `hir` is a run of dots: a dot, possibly captured, repeated (`.?`, `.{1,2}`) or
+    /// concatenated (`..`), or an alternation with such a branch (`.|ab`). Repeated without
+    /// bound, it consumes whatever follows, like `.+` does.
+    fn is_dots(hir: &Hir) -> bool {
+        match hir.kind() {
+            HirKind::Capture(capture) => Self::is_dots(&capture.sub),
+            HirKind::Repetition(repetition) => Self::is_dots(&repetition.sub),
+            HirKind::Concat(hirs) => hirs.iter().all(Self::is_dots),
+            HirKind::Alternation(hirs) => hirs.iter().any(Self::is_dots),
+            _ => DOT_HIRS.contains(hir),
         }
     }
 
